@@ -1,13 +1,15 @@
 # p_render engine: C25 C30
 PROPS = {
     "C25": dict(
-        engine="p_render", quick_checks=70, thorough_checks=4000, quick_shards=14, thorough_shards=16, quick_budget_s=500, thorough_budget_s=3400,
+        engine="p_render", quick_checks=160, thorough_checks=4000, quick_shards=14, thorough_shards=16, quick_budget_s=500, thorough_budget_s=3400,
         gomaxprocs=[1, 4, 16, 2], thorough_race=True,
         rule="structured compilable diagrams (markdown, code, latex, class/sql_table, grids, sequences, all shapes, hostile names; sketch on in 1/5), dagre "
              "3/4 and ELK 1/4; core = 7 snippets x {dagre, elk, sketch}. oracle: byte-identical SVG for the same (text, options): 3 sequential "
              "compile+layout+render runs; then 2-6 (thorough 2-16) goroutines render the same input while up to 4 other diagrams are rendered "
              "concurrently, every result equal to its sequential one. Shards run under GOMAXPROCS 1/4/16/2; the thorough tier uses a -race build. "
-             "non-trivial = the diagram uses >=2 of {markdown, code, latex, sketch, class/table}.",
+             "half of the random cases are deep dagre diagrams: containers nested 3-4 deep, several sibling sub-containers, leaves with margins (multiple, person, outside labels), "
+             "cross-container connections (the shape on which dagre's post-processing once depended on map order). "
+             "non-trivial = the diagram uses >=2 of {markdown, code, latex, sketch, class/table} or is such a deep diagram.",
         assumptions=["only schedules the Go runtime produces under these settings are observed", "separate-process comparison is covered by the shards themselves: "
                      "all 14 shards render the same 7 core snippets and the driver does not compare them (not asserted)"],
     ),
